@@ -11,6 +11,7 @@ import (
 
 	sdk "github.com/cosmos/cosmos-sdk/types"
 	"github.com/ethereum/go-ethereum/common"
+	ethtypes "github.com/ethereum/go-ethereum/core/types"
 	corevm "github.com/ethereum/go-ethereum/core/vm"
 
 	cpcabi "github.com/EscanBE/evermint/v12/x/cpc/abi"
@@ -623,6 +624,10 @@ func (o Op) String() string {
 		return fmt.Sprintf("DeployStaking(%s,%q,%d)", o.Sender, o.Symbol, o.Decimals)
 	case "UpdateParams":
 		return fmt.Sprintf("UpdateParams(%s/%s,wl=%v,ver=%d)", o.Route, o.Sender, o.WL, o.Ver)
+	case "Drain":
+		return fmt.Sprintf("Drain(%s,%s,%s)", o.Addr, o.Denom, o.Route)
+	case "MintBack":
+		return fmt.Sprintf("MintBack(%s)", o.Denom)
 	case "SetDisabled":
 		return fmt.Sprintf("SetDisabled(%s,%v)", o.Addr, o.Flag)
 	case "Retype":
@@ -715,6 +720,45 @@ func (r *RegRun) Apply(o Op) (trace.M, trace.M) {
 			out := DeliverCosmos(c, who, []sdk.Msg{&cpctypes.MsgUpdateParams{Authority: gov.String(), NewParams: p}}, chain.CosmosTxOpts{Payer: who.Acc()})
 			res["ok"], res["why"] = out.Code == 0, fmt.Sprintf("code %d %s %s", out.Code, out.Codespace, trunc(out.Log, 100))
 		}
+	case "Drain": // burn the WHOLE supply of the contract's denomination through the precompile itself
+		erc := r.U.Addr[o.Addr]
+		amount := c.App.BankKeeper.GetSupply(c.Ctx(), o.Denom).Amount.BigInt()
+		price := new(big.Int).Add(c.BaseFee(), big.NewInt(2))
+		mk := func(a *chain.Acct, data []byte) []byte {
+			return c.EthTx(a, &ethtypes.LegacyTx{Nonce: c.Seq(a.Addr), GasPrice: price, Gas: 300000, To: &erc, Value: big.NewInt(0), Data: data})
+		}
+		var txs [][]byte
+		if o.Route == "burn" {
+			data, _ := cpcabi.Erc20CpcInfo.ABI.Pack("burn", amount)
+			txs = append(txs, mk(Holder, data))
+		} else { // burnFrom by a spender the single holder approved
+			sp := c.Accts[iEOA]
+			d1, _ := cpcabi.Erc20CpcInfo.ABI.Pack("approve", sp.Addr, amount)
+			d2, _ := cpcabi.Erc20CpcInfo.ABI.Pack("burnFrom", Holder.Addr, amount)
+			txs = append(txs, mk(Holder, d1), mk(sp, d2))
+		}
+		bo := c.Deliver(txs...)
+		ok := bo.Res != nil
+		why := ""
+		if ok {
+			for _, tr := range bo.Res.TxResults {
+				rsp, err := ethResponse(tr.Data)
+				if tr.Code != 0 || err != nil || rsp.VmError != "" {
+					ok = false
+					why += fmt.Sprintf("code %d %s ", tr.Code, trunc(tr.Log, 80))
+					if rsp != nil {
+						why += rsp.VmError
+					}
+				}
+			}
+		}
+		opj["addr"], opj["denom"], opj["route"] = o.Addr, r.denomName(o.Denom), o.Route
+		res["ok"], res["why"] = ok, why
+		res["supplyLeft"] = trace.I(c.App.BankKeeper.GetSupply(c.Ctx(), o.Denom).Amount.BigInt())
+	case "MintBack":
+		st := MintBack(c, o.Denom, 9)
+		opj["denom"] = r.denomName(o.Denom)
+		res["ok"], res["why"] = st == "ok", st
 	case "SetDisabled":
 		st := SetDisabled(c, r.U.Addr[o.Addr], o.Flag)
 		opj["addr"], opj["flag"] = o.Addr, o.Flag
@@ -837,7 +881,7 @@ type RegStats struct {
 
 func newRegRun(g genCfg, toks *Toks, nDyn int) *RegRun {
 	c := NewRegChain(RegOpts{Erc20Native: g.Erc20Native, Staking: g.Staking, Whitelist: g.WL})
-	r := &RegRun{C: c, T: toks, Denoms: []string{chain.Denom, chain.Denom2, DenomZero, DenomThree}}
+	r := &RegRun{C: c, T: toks, Denoms: []string{chain.Denom, chain.Denom2, DenomZero, DenomThree, DenomFour}}
 	r.U = NewUniverse(c, nDyn)
 	r.Who = map[string]*chain.Acct{"w": c.Accts[iW], "n": c.Accts[iN], "w2": c.Accts[iW2], "val": c.Accts[iVal]}
 	return r
@@ -1122,6 +1166,11 @@ func scripted() []script {
 		{cfgs[0], []Op{erc("w", chain.Denom2), {K: "SetDisabled", Addr: "dyn0", Flag: true}, {K: "SetDisabled", Addr: "dyn0", Flag: false},
 			{K: "Retype", Addr: "dyn0", Flag: false}, {K: "Retype", Addr: "dyn0", Flag: true}, {K: "Retype", Addr: "b32", Flag: false},
 			erc("w", chain.Denom2), erc("w", DenomThree), {K: "SetDisabled", Addr: "dyn1", Flag: true}, {K: "SetDisabled", Addr: "eoa", Flag: true}}},
+		// the total supply of a deployed ERC-20 denomination drained to exactly zero through the precompile (burn by the only
+		// holder; burnFrom by an approved spender), minted back, drained while disabled: the registry - not bank - decides the wiring
+		{cfgs[0], []Op{erc("w", DenomThree), {K: "Drain", Addr: "dyn0", Denom: DenomThree, Route: "burn"}, erc("w", DenomThree),
+			{K: "MintBack", Denom: DenomThree}, erc("w", DenomFour), {K: "Drain", Addr: "dyn1", Denom: DenomFour, Route: "burnFrom"},
+			{K: "SetDisabled", Addr: "dyn1", Flag: true}, {K: "SetDisabled", Addr: "dyn1", Flag: false}, {K: "Drain", Addr: "dyn0", Denom: DenomThree, Route: "burnFrom"}}},
 		{cfgs[3], []Op{{K: "SetDisabled", Addr: "stk", Flag: true}, {K: "DeployStaking", Sender: "w", Symbol: "STK", Decimals: 18}, {K: "SetDisabled", Addr: "dyn0", Flag: true},
 			{K: "SetDisabled", Addr: "stk", Flag: false}, {K: "Retype", Addr: "stk", Flag: false}, {K: "Retype", Addr: "stk", Flag: true}, erc("w", chain.Denom),
 			gov(nil, 1), erc("w", chain.Denom2), gov([]string{"n"}, 1), erc("n", chain.Denom2), erc("w", DenomThree)}},
